@@ -309,7 +309,8 @@ def run_case(case):
             pat = spec.glob_escape(p)
             if not pat.startswith('/'):
                 pat = None
-            if pat and '\n' not in pat:
+            if pat and '\n' not in pat and '\x00' not in pat:
+                # (no argument of a real command line can hold a NUL byte)
                 r = run.run(w, 'rm', [pat], stdin=b'')
                 s1 = w.snapshot()
                 runs['rm'] = r.brief()
